@@ -563,6 +563,10 @@ func GenScript(t *rapid.T, prop, profile string, o GenOpts) *Script {
 	if o.Priorities {
 		s.World.PriorityClasses = []PriorityClassSpec{{Name: "train", Value: 50}, {Name: "build", Value: 100}, {Name: "inference", Value: 125}, {Name: "low", Value: 25}}
 	}
+	if o.Priorities && prop == "C06" && chance(t, "extremeclasses", 25) {
+		// legal extremes of the int32 priority range inside one world: differences of priorities do not fit an int32
+		s.World.PriorityClasses = append(s.World.PriorityClasses, PriorityClassSpec{Name: "huge", Value: 1000000000}, PriorityClassSpec{Name: "deep", Value: -1500000000})
+	}
 	s.World.Workloads = genWorkloads(t, o, leaves, s.World.Nodes, s.World.PriorityClasses)
 	if o.Running {
 		placeInitial(t, o, &s.World)
